@@ -35,6 +35,9 @@ type c17Pool struct {
 	evKeys  []keyPair
 	cborBuf [][]byte
 	jsonBuf [][]byte
+	// JSON documents that declare TWO registered profiles at once / an
+	// unregistered one / a profile under the other profile's member
+	conflictJSON [][]byte
 	coseBuf [][]byte
 	coseKey []keyPair
 	names   []string
@@ -167,6 +170,15 @@ func buildPool(sp c17Spec) (*c17Pool, error) {
 	}
 	if len(p.claims) == 0 || len(p.evs) == 0 || len(p.jsonBuf) == 0 {
 		return nil, fmt.Errorf("pool too small")
+	}
+	for _, b := range []*MClaims{baseValid(P1, 0), baseValid(P2, 0)} {
+		for _, kv := range [][]string{{"psa-profile", P1Name, "eat-profile", P2Name}, {"eat-profile", P2Name, "psa-profile", P1Name}, {"eat-profile", "http://example.com/verif/never-registered"}, {"psa-profile", P2Name}, {"eat-profile", P1Name}} {
+			o := modelJN(b)
+			for i := 0; i+1 < len(kv); i += 2 {
+				o.keys, o.vals = append(o.keys, kv[i]), append(o.vals, jStr(kv[i+1]))
+			}
+			p.conflictJSON = append(p.conflictJSON, []byte(o.String()))
+		}
 	}
 	// shared claims-sets of particular make (every program has them): a
 	// decoded profile-1 token in the no-measurements form (empty container
@@ -349,7 +361,7 @@ type c17Op struct {
 }
 
 var c17Kinds = []string{"dec-nested", "dec-mutate", "ev-verify-all", "ev-verify-all", "claims-read-all", "dec-dup", "dec-dup", "dec-val-long", "dec-val-long", "reuse", "reuse", "ext-dec-cbor", "ext-dec-json", "ext-bad", "ext-bad", "synth", "synth", "new", "dec-cbor", "dec-json", "dec-cose", "validate", "getter", "getters", "enc-cbor", "enc-json", "venc-cbor", "venc-json",
-	"ev-json", "ev-verify", "ev-ids", "sign", "vsign", "setters", "setters-shared", "setters-shared", "serialize", "populate", "slow-codec", "dec-odd-profile", "dec-odd-profile"}
+	"ev-json", "ev-verify", "ev-ids", "sign", "vsign", "setters", "setters-shared", "setters-shared", "serialize", "populate", "slow-codec", "dec-odd-profile", "dec-odd-profile", "dec-json-conflict", "dec-json-conflict"}
 
 func idx(n, k int) int { return ((k % n) + n) % n }
 
@@ -491,6 +503,16 @@ func runOp(p *c17Pool, o c17Op) string {
 			return fmt.Sprintf("%T without nested set", c)
 		}
 		return ObserveGetters(c) + "//" + ObserveGetters(n.InnerSet)
+	case "dec-json-conflict":
+		// the JSON dispatcher's refusals (two profiles declared, unregistered
+		// name, a name under another profile's member), between other
+		// goroutines' ordinary decodes
+		c, err := psatoken.DecodeClaimsFromJSON(p.conflictJSON[idx(len(p.conflictJSON), o.A*5+o.B)])
+		if err != nil {
+			// (the TEXT names the matches in the register's iteration order)
+			return "refused"
+		}
+		return fmt.Sprintf("%T/%s", c, ObserveGetters(c))
 	case "dec-odd-profile":
 		// the dispatcher's less-travelled branches: key 265 not a text
 		// string, input not a map
@@ -743,7 +765,7 @@ func TestC17_Concurrent(t *testing.T) {
 				// every goroutine STARTS by decoding the same token (right
 				// behind the barrier, so the decodes overlap) and changing
 				// its own result
-				scripts[g] = append([]c17Op{{"slow-codec", g % 2, 0}, {"dec-odd-profile", g % 4, g % 3}, {"dec-nested", 0, g % 2}, {"dec-mutate", 0, g % 10}, {"dec-mutate", 0, (g + 3) % 10}, {"dec-mutate", -1, g % 10}, {"dec-mutate", -2, g % 7}}, scripts[g]...)
+				scripts[g] = append([]c17Op{{"slow-codec", g % 2, 0}, {"dec-json-conflict", g % 2, g % 5}, {"dec-json", g, 0}, {"dec-json-conflict", (g + 1) % 2, (g + 1) % 5}, {"dec-odd-profile", g % 4, g % 3}, {"dec-nested", 0, g % 2}, {"dec-mutate", 0, g % 10}, {"dec-mutate", 0, (g + 3) % 10}, {"dec-mutate", -1, g % 10}, {"dec-mutate", -2, g % 7}}, scripts[g]...)
 			}
 			progSerial++
 			sp.Synth = progSerial*1000 + os.Getpid()%1000
